@@ -170,7 +170,9 @@ def coq_eval(workdir, name, body, timeout=600):
     name = '%s_p%d' % (name, os.getpid())     # concurrent runs of the same check must not share scratch files
     p = os.path.join(workdir, name + '.v')
     open(p, 'w').write(body)
-    rc, out = sh(['timeout', str(timeout), 'coqc', '-q', '-Q', COQ, 'DV', '-w', '-all', p], timeout=timeout + 30, cwd=workdir)
+    # big case lists are single Gallina terms of a megabyte or more: coqc's parser/printer recurse on the system stack
+    rc, out = sh(['bash', '-c', 'ulimit -s unlimited 2>/dev/null || ulimit -s $(ulimit -Hs) 2>/dev/null; exec "$@"', 'coqc-wrap',
+                  'timeout', str(timeout), 'coqc', '-q', '-Q', COQ, 'DV', '-w', '-all', p], timeout=timeout + 30, cwd=workdir)
     for ext in ('.vo', '.vos', '.vok', '.glob'):
         q = os.path.join(workdir, name + ext)
         if os.path.exists(q):
